@@ -119,7 +119,14 @@ pub struct TreeObj {
     pub owner: u8,
 }
 
-pub const NAMEU: &[&str] = &["a", "b", "c", "d", "e", "f"];
+/// the first six names are the dense pool (collisions wanted); the rest are legal but unusual
+/// spellings: names that merely BEGIN with dots (Kubernetes' "..data"), a leading dash, a blank
+pub const NAMEU: &[&str] = &["a", "b", "c", "d", "e", "f", "..data", "...", ".h", "-x y"];
+/// index strategy over NAMEU: mostly the dense pool
+pub fn name_idx() -> proptest::strategy::BoxedStrategy<u8> {
+    use proptest::prelude::*;
+    prop_oneof![12 => 0u8..6, 1 => 6u8..10].boxed()
+}
 pub const OWNERS: &[u32] = &[0, 1000, 1001];
 pub const FILE_SIZES: &[usize] = &[0, 1, 4095, 4096, 4097, 65536, 100, 10000];
 pub const LINK_TARGETS: &[&str] = &["a", "b/c", "/export/a", "nonexistent", "../a", ".", "/", "a/../b"];
